@@ -152,9 +152,9 @@ def gen(rng, tier):
                 ops.append([5, r, creg, o]); ops.append([7, creg]); tags.add('compact')
                 if rng.random() < 0.5:
                     ops.append([5, creg, creg + 1, rng.randrange(2)]); ops.append([7, creg + 1])
-                    ops.append([6, creg + 1, creg]); ops.append([7, creg])
+                    ops.append([6, creg + 1, creg, rng.randrange(4)]); ops.append([7, creg])
             elif z < 0.012 and len(live) < 3:
-                ops.append([6, r, nreg]); ops.append([7, nreg]); live.append(nreg); nreg += 1; tags.add('copy')
+                ops.append([6, r, nreg, rng.randrange(4)]); ops.append([7, nreg]); live.append(nreg); nreg += 1; tags.add('copy')
             elif z < 0.013:
                 ops.append([2, r, 10])          # empty string: ignored
                 ops.append([2, r, 11])          # empty raw buffer: hashed
